@@ -78,6 +78,10 @@ def handle (op : String) (args : List String) : Option String :=
                   byweekday := ← Ops.RRuleStr.parseWDays? byweekday, byhour := ← Ops.RRuleStr.optList? byhour,
                   byminute := ← Ops.RRuleStr.optList? byminute, bysecond := ← Ops.RRuleStr.optList? bysecond } }
       some ("ok " ++ hexL (Gen.rruleStr x))
+  | "rrsgen.line", [h] => do
+      -- the SOURCE TRANSLATION of `_parse_rfc_rrule` on one line (as `_parse_rfc` hands it over: upper-cased), printed like `rrs.parse`
+      let s ← parseHexString? h
+      some (Py.showR (fun a => Ops.RRuleStr.showParsed false (fun _ => none) (.rule a none false)) (Gen.rrsParseRule {} s.toList))
   | _, _ => none
 
 end Ops.RRuleStrGen
